@@ -10,44 +10,15 @@ OUT = "/tmp/mut2/out"
 DST = "/verif/seeded"
 VER = json.load(open("/tmp/mut2/verify.json"))
 
-INFO = {
- "C01-m1": ("schedule_keyed_event_from validates the deadline before taking the queue lock (only this variant)", "a Scheduler clone on a second thread using schedule_keyed_event exactly while the simulation steps", ["C08", "C01"]),
- "C01-m2": ("keyed periodic variant accepts deadline == now (`time < now`)", "schedule_keyed_periodic_event with Duration::ZERO or an absolute deadline equal to the current time", ["C01", "C08"]),
- "C02-m1": ("BroadcastFuture counts a woken, still pending delivery as finished", "fan-out output, one full recipient mailbox, another sender takes the freed slot before the re-poll", ["C02", "C03"]),
- "C02-m2": ("first-poll fast path of BroadcastFuture only reflects the last recipient", "fan-out output where a recipient that is not the last connected one has a full mailbox", ["C02", "C03"]),
- "C03-m1": ("SeqFuture advances its index before polling", ">= 2 same-time same-origin events exceeding the free mailbox capacity", ["C03", "C07", "C10"]),
- "C03-m2": ("output slots of BroadcastFuture emptied only on cancellation (two cooperating sites)", "second broadcast on a multi-recipient port while a recipient mailbox is full", ["C03", "C04"]),
- "C04-m1": ("BroadcastFuture::new no longer empties the output slots", "multi-recipient output, second or later broadcast, full target mailbox", ["C04", "C03"]),
- "C04-m2": ("Injector::pop_bucket marks the injector empty when one bucket is left (`len() <= 1`)", ">= 2 buckets in the injector (129+ tasks before one run), multi-threaded executor", ["C04"]),
- "C06-m1": ("single-threaded executor no longer saves/restores the thread-local in-flight counter", "a simulation built on a thread on which an earlier simulation panicked with messages in flight", ["C06"]),
- "C06-m2": ("deadlock report pairs observers and names by position (observer pushed before build, name after)", "a stalled model in a hierarchy with sub-models", ["C06", "C16"]),
- "C08-m1": ("keyed periodic variant validates the deadline before taking the queue lock", "a foreign thread calling schedule_keyed_periodic_event while the simulation steps", ["C08", "C01", "C15", "C18"]),
- "C08-m2": ("zero-period check through a new ActionInner::period() that KeyedPeriodicAction does not override", "Scheduler::schedule with EventSource::keyed_periodic_event(Duration::ZERO)", ["C08"]),
- "C09-m1": ("keyed periodic model-input events checked when sent instead of when processed", "a keyed periodic event cancelled during the step in which an occurrence is due", ["C09", "C10"]),
- "C09-m2": ("AutoActionKey::drop only cancels when the Arc has exactly two owners", "auto key dropped while a clone of the key is alive, or from inside the periodic action's own handler", ["C09"]),
- "C10-m1": ("SeqFuture advances its index before polling", "coinciding periodic occurrences of one origin and a full mailbox", ["C10", "C03", "C07"]),
- "C10-m2": ("keyed periodic events lose the delivery-time key check", "a keyed periodic event cancelled by an earlier same-origin event exactly at an occurrence time", ["C10", "C09"]),
- "C11-m1": ("ModelId computed before build()", "Panic / NoRecipient raised by a model that owns sub-models", ["C11", "C16"]),
- "C11-m2": ("single-threaded executor checks the message balance before the caught panic", "a panic or dead-mailbox send while other messages are still queued", ["C11"]),
- "C12-m1": ("Sender::send notifies the receiver only if the queue was empty when the send started", "a sender (not the receiving model) that had to wait for space", ["C12"]),
- "C12-m2": ("Queue::len rewritten with a mask: wrong for non-power-of-two capacities across the wrap-around", "capacity 3, 5, 6, 7, 12 with a partially filled queue straddling the wrap", ["C12", "C06"]),
- "C13-m1": ("runnable_exists() no longer counts the wind-down phase (CLOSED|POLLING)", "task cancelled while polled, poll returns Pending, last reference dropped while the Runnable drops the future", ["C13"]),
- "C13-m2": ("wake_by_val releases the task when the pre-wake state shows no Runnable", "idle pending task, cancel token dropped, no promise, exactly one waker woken by value", ["C13"]),
- "C14-m1": ("TaskSet::resize assigns indices from task_count instead of the vector length", "three queries whose accepting-replier counts go n2 < n1 < n3 (shrink, then grow past the old maximum)", ["C14"]),
- "C14-m2": ("source BroadcastFuture arms the countdown with the number of pending futures", "a QuerySource/EventSource with >= capacity+2 connections to one model", ["C14", "C03"]),
- "C15-m1": ("SyncCellReader::read reuses the Relaxed end-of-attempt count as the next start count", "a retry after a failed attempt under the C11 memory model", ["C15"]),
- "C15-m2": ("keyed periodic variant validates the deadline before the queue lock (time goes backwards)", "a foreign thread scheduling during a step", ["C15", "C08", "C01", "C18"]),
- "C16-m1": ("ModelId computed before build()", "an error raised by a model that has sub-models", ["C16", "C11"]),
- "C16-m2": ("local queue size x4 and overflow drain of n/2 while a bucket keeps 128 tasks: 128 tasks dropped", ">= 2 workers and > 512 wake-ups from one worker in a single poll", ["C04"]),
- "C17-m1": ("EventBufferWriter::write split into two critical sections (evicted event dropped outside the lock)", "two models writing to one buffer from two workers at exactly capacity-1", ["C17"]),
- "C17-m2": ("open flag read under the lock but after the eviction step", "a write to a closed, exactly full buffer", ["C17"]),
- "C18-m1": ("final synchronize of step_until moved before the locked time commit", "another thread (or the clock itself) scheduling an event at or before the target during that synchronize", ["C18"]),
- "C18-m2": ("keyed periodic variant validates the deadline before the queue lock", "another thread scheduling while the simulation steps", ["C18", "C08"]),
- "C19-m1": ("activate_all_workers only unparks workers whose active bit was clear", "executor dropped after a timeout while a handler still runs on a worker", ["C19"]),
- "C19-m2": ("BroadcastFuture::drop returns early while deliveries are pending", "a suspended fan-out broadcast when the simulation is dropped", ["C19"]),
- "C20-m1": ("IndexedPriorityQueue re-created (epoch reset) when a queue of > 1024 slots drains", "> 1024 live entries, a full drain, new inserts, then a stale key", ["C20"]),
- "C20-m2": ("PriorityQueue::pull resets the epoch counter when at most one item remains", "a pull leaving exactly one entry, then an insert with the same key", ["C20", "C07"]),
+INFO = json.load(open(os.path.join(DST, "round2_info.json")))
+# checks expected to report each change (own property first); verified by tools/catalogue.py
+ALSO = {
+    "C01-m1": ["C08"], "C01-m2": ["C08"], "C02-m1": ["C03"], "C02-m2": ["C03"], "C03-m1": ["C07"], "C03-m2": ["C04"],
+    "C04-m1": ["C03"], "C04-m3": ["C03", "C07"], "C07-m1": ["C03"], "C08-m1": ["C01", "C15", "C18"], "C09-m1": ["C10"],
+    "C10-m1": ["C03", "C07"], "C10-m2": ["C09"], "C11-m1": ["C16"], "C15-m2": ["C08", "C18"], "C16-m1": ["C11"],
+    "C18-m2": ["C08"], "C20-m2": ["C07"],
 }
+OWN_OVERRIDE = {"C16-m2": ["C04"]}
 
 rows = []
 for key in sorted(INFO):
@@ -59,10 +30,14 @@ for key in sorted(INFO):
     name = "%s-r2-m%s" % (prop, n)
     d = os.path.join(DST, name)
     os.makedirs(d, exist_ok=True)
-    shutil.copy(os.path.join(OUT, prop, "mutant%s.diff" % n), os.path.join(d, "patch.diff"))
+    src = os.path.join(OUT, prop, "mutant%s.diff" % n)
+    if not os.path.exists(src):
+        src = os.path.join(OUT, prop, "bonus_mutant%s.diff" % n)
+    shutil.copy(src, os.path.join(d, "patch.diff"))
     for f in glob.glob(os.path.join(OUT, prop, "demo%s*.rs" % n)):
         shutil.copy(f, os.path.join(d, os.path.basename(f)))
-    what, needs, checks = INFO[key]
+    what, needs = INFO[key]["what"], INFO[key]["needs"]
+    checks = OWN_OVERRIDE.get(key, [prop]) + ALSO.get(key, [])
     meta = {
         "property": prop,
         "what": what,
